@@ -524,8 +524,8 @@ func (m *Monitor) checkDelete(n *Node, b *blockchain.Block) {
 				continue // revert diffs below the finalized height are pruned
 			}
 		case pfxEvents:
-			if len(kb) == 5 && (be32(kb[1:]) <= f || m.W.P.KeepEvents >= 0) {
-				continue // events are pruned below the finalized height / the retention window
+			if len(kb) == 5 && be32(kb[1:]) <= f {
+				continue // events are pruned only below the finalized height (and only outside the retention window)
 			}
 		case pfxTemp:
 			if gok && len(kb) == 5 {
